@@ -703,3 +703,37 @@ def wait_worker(handle, timeout=900):
     if not os.path.exists(outp):
         return {"ok": False, "error": "worker died rc=%s: %s" % (p.returncode, (out or "")[-1500:])}
     return pickle.load(open(outp, "rb"))
+
+
+def interleaved_call(fn, args, intruder, file_suffixes=("fast_ticc",)):
+    """run fn(*args) while, at EVERY line boundary executed inside the library (files whose path contains one of
+    file_suffixes), the callable `intruder` runs to completion first - what a second thread of the same process that is
+    scheduled at that point would do (at line granularity).  Deterministic.  Returns fn's result and the number of
+    interruption points."""
+    import sys
+    state = {"busy": False, "points": 0}
+
+    def local(frame, event, arg):
+        if event == "line" and not state["busy"]:
+            state["busy"] = True
+            sys.settrace(None)
+            try:
+                state["points"] += 1
+                intruder()
+            finally:
+                state["busy"] = False
+                sys.settrace(tracer)
+        return local
+
+    def tracer(frame, event, arg):
+        fnm = frame.f_code.co_filename
+        if state["busy"] or not any(sfx in fnm for sfx in file_suffixes):
+            return None
+        return local
+    old = sys.gettrace()
+    sys.settrace(tracer)
+    try:
+        out = fn(*args)
+    finally:
+        sys.settrace(old)
+    return out, state["points"]
